@@ -33,6 +33,8 @@ type Doc struct {
 type DocOpts struct {
 	MaxInsts   int
 	ChordNames []string // names and display symbols known to the dictionary
+	Dynamics   []string // dynamic signs (default: the six documented ones)
+	EdgeValues bool     // numerators/denominators at the edges of the integer ranges
 	Settings   bool     // bpm / velocity / meter / key on instances
 	Meta       bool
 	Unicode    bool
@@ -47,7 +49,24 @@ var docDegreesBig = []string{"8", "9", "b9", "#9", "10", "11", "#11", "12", "13"
 var DocDegreesHuge = []string{"0", "16", "64", "100", "255", "1000", "65536", "1000000", "4294967296", "18446744073709551615", "b18446744073709551615", "18446744073709551616", "-1", "#", "b", "1b", "x"}
 var docBases = []string{"1", "3", "5", "b3", "7", "b7", "2", "4", "6", "#4", "8", "10", "b10", "12", "15", "8", "10"}
 
+var EdgeInts = []string{"4294967295", "4294967296", "4294967297", "2147483648", "9223372036854775807", "9223372036854775808", "18446744073709551615", "18446744073709551614", "65536", "16777216"}
+
 func genDocValue(r *Rand, o *DocOpts) string {
+	if o.EdgeValues && r.Chance(1, 2) {
+		// fractions whose parts sit at the edges of 32/64-bit ranges, alone or
+		// as pairs that add up to small sums
+		d := Pick(r, EdgeInts)
+		switch r.Intn(4) {
+		case 0:
+			return "1/" + d
+		case 1:
+			return Pick(r, EdgeInts) + "/" + d
+		case 2:
+			return Pick(r, EdgeInts)
+		default:
+			return fmt.Sprint(1+r.Intn(4)) + "/" + d
+		}
+	}
 	if r.Chance(2, 3) {
 		return fmt.Sprint(1 + r.Intn(4))
 	}
@@ -87,12 +106,24 @@ func GenDoc(r *Rand, o *DocOpts) Doc {
 		for j := 0; j < nv; j++ {
 			in.Values = append(in.Values, genDocValue(r, o))
 		}
+		if o.EdgeValues && r.Chance(1, 3) {
+			// several fractions over one huge denominator that add up to a small sum
+			pair := Pick(r, [][2]string{{"4294967296", "4294967295"}, {"4294967295", "4294967294"}, {"18446744073709551615", "18446744073709551614"}, {"9223372036854775808", "9223372036854775807"}, {"65536", "65535"}, {"4294967297", "4294967296"}})
+			in.Values = []string{"1/" + pair[0], pair[1] + "/" + pair[0]}
+			if r.Chance(1, 3) {
+				in.Values = append(in.Values, "1")
+			}
+		}
 		if o.Settings {
 			if r.Chance(1, 5) {
 				in.BPM = fmt.Sprint(30 + r.Intn(270))
 			}
 			if r.Chance(1, 5) {
-				in.Velocity = Pick(r, dynamics)
+				if len(o.Dynamics) > 0 {
+					in.Velocity = Pick(r, o.Dynamics)
+				} else {
+					in.Velocity = Pick(r, dynamics)
+				}
 			}
 			if r.Chance(1, 6) {
 				in.Meter = fmt.Sprintf("%d/%d", 1+r.Intn(12), Pick(r, []int{2, 4, 8, 16}))
